@@ -172,14 +172,21 @@ class Ctx:
             return [fn(x) for x in items]
         if chunk is None:
             chunk = max(1, min(256, len(items) // (self.workers * 8) or 1))
-        if getattr(self, "_pool", None) is not None:
-            return self._pool.map(fn, items, chunksize=chunk)
         import gc
 
-        gc.collect()  # no sqlite garbage left for the pool's helper threads to finalise
-        mp = multiprocessing.get_context("fork")
-        with mp.Pool(self.workers) as pool:
-            return pool.map(fn, items, chunksize=chunk)
+        if getattr(self, "_pool", None) is not None:
+            gc.collect()
+            return self._pool.map(fn, items, chunksize=chunk)
+        # sqlite objects must be finalised in the thread that created them: collect now and keep the
+        # cyclic collector off while the pool's helper threads exist in this process
+        gc.collect()
+        gc.disable()
+        try:
+            mp = multiprocessing.get_context("fork")
+            with mp.Pool(self.workers, initializer=gc.enable) as pool:
+                return pool.map(fn, items, chunksize=chunk)
+        finally:
+            gc.enable()
 
 
 def _pool_begin(self):
@@ -188,7 +195,8 @@ def _pool_begin(self):
 
     if self.workers > 1 and getattr(self, "_pool", None) is None:
         gc.collect()
-        self._pool = multiprocessing.get_context("fork").Pool(self.workers)
+        gc.disable()
+        self._pool = multiprocessing.get_context("fork").Pool(self.workers, initializer=gc.enable)
 
 
 def _pool_end(self):
@@ -197,6 +205,9 @@ def _pool_end(self):
         p.terminate()
         p.join()
         self._pool = None
+        import gc
+
+        gc.enable()
 
 
 Ctx.pool_begin = _pool_begin
